@@ -297,6 +297,7 @@ func init() {
 		return schedScenario{name: "e2", prepare: prepare, build: func(x *schedExec) ([]activity, func() *pt.Violation, func() *pt.Violation, func()) {
 			pp, _ := json.Marshal(sa.E2)
 			m := newE2(pp)
+			m.schedMode = true
 			x.sched = m.sys.Sched
 			x.policy = sa.Policy
 			if sa.GiveUps > 0 {
